@@ -235,6 +235,11 @@ class C13(ProgramProperty):
                 and self.has_concatenation(t):
             # (the finding is about implicitly concatenated literals: without one in the text it is something else)
             return 'C13-F2'
+        if 'C13-F3' in ids and '\r\n' in t and sig.startswith('error_location_') and isinstance(d.get('offset'), int) and \
+                t.encode('utf-8')[d['offset'] - 1:d['offset'] + 1] == b'\r\n' and re.search(r'''['"]''', t):
+            # the error offset itself is the shifted one of C03-F2 (short by one byte per CRLF inside the string token) and has
+            # landed between the CR and the LF of a line end: no line/column is right for it, and the linear locator's self-check trips
+            return 'C13-F3'
         if 'C13-F3' in ids and '\r\n' in t and re.search(r'''[fF][rR]?['"]|[rR][fF]['"]''', t) and \
                 (sig.startswith('panic_or_crash') and 'char boundary' in str(d.get('reply')) or 'JoinedStr' in d.get('path', '') or
                  sig.startswith(('linear_locator_panics', 'location_differs_from_cpython'))):
